@@ -7,8 +7,8 @@ Streams (cluster Conv = coq/theories/Model/Conv.v extracted):
   CtorInit   model number_init/numbers_init vs the converter constructors (asserts, size normalisation)
   FromWords  model from_words     vs  definition.extract on a typed definition; constructor-argument
              grid x value texts; eval is an oracle recorded from the implementation's own calls.
-  AsWords    (not in C10's SPEC; exported for C09/C16) model as_words vs converter.as_words; the "%.10g" texts
-             are an oracle table built by the harness
+  AsWords    model as_words vs converter.as_words (the inverse direction, on which C09 / C16 theorems rest; kept in
+             C10's SPEC to protect the shared Conv model); the "%.10g" texts are an oracle table built by the harness
 """
 import builtins
 import itertools
@@ -898,15 +898,59 @@ class AsWords(Stream):
 
     HUGE_VALUES = ["10**4299", "10**4300", "-10**4300", "[10**4299]", "[1, 10**4300]"]
 
+    def corpus(self):
+        return [
+            # former finding (repaired in 2de8c99): a None / Auto element of a bounded list is written, no TypeError
+            [["ints", None, None, None, "0", None, True, False], "[1, None]"],
+            [["floats", None, None, None, None, "5", False, True], "[Auto, 2.5]"],
+            [["ints", None, None, None, "0", None, False, False], "[1, None]"],      # ElementNone refusal
+            # repaired in b77ba3d: scalar values are checked against the bounds before they are written
+            [["int", "0", "3", True], "99"],
+            [["float", "0", "3", True], "nan"],
+            [["int", "0", "3", True], "2"],
+            # repaired in fb27147 / 74d055d: texts of huge and non-finite numbers
+            [["int", None, None, True], "10**4300"],
+            [["int", None, None, True], "inf"],
+            [["float", None, None, True], "10**400"],
+            [["floats", None, None, None, None, None, False, False], "[10**4300]"],
+            [["ints", None, None, None, None, None, False, False], "[[1]]"],         # nested list: TypeError
+            [["int", None, None, True], "[1]"],
+            [["ints", None, None, None, None, None, False, False], "1"],
+        ]
+
+    # must-pass texts of the former witnesses
+    EXPECT = {
+        json.dumps([["ints", None, None, None, "0", None, True, False], "[1, None]"]): ["1", "None"],
+        json.dumps([["floats", None, None, None, None, "5", False, True], "[Auto, 2.5]"]): ["Auto", "2.5"],
+        json.dumps([["int", "0", "3", True], "2"]): ["2"],
+    }
+
+    def prop(self, case, o):
+        """writing either succeeds or refuses with RuntimeError (class only); the former witnesses format as recorded"""
+        want = self.EXPECT.get(json.dumps(case))
+        if want is not None and (o[0] != "ok" or [w[0] for w in o[1]] != want):
+            return "as_words gave %r, expected the words %r" % (o, want)
+        return None
+
     def cases(self, rng, tier):
-        for ty in type_grid(tier):
-            for v in self.VALUES:
-                yield [ty, v]
-        for ty in (["int", None, None, True], ["int", "0", None, True], ["float", None, None, True],
-                   ["ints", None, None, None, None, None, False, False], ["ints", None, None, None, None, "3", False, False],
-                   ["floats", None, None, None, None, None, False, False]):
-            for v in self.HUGE_VALUES:
-                yield [ty, v]
+        grid = type_grid(tier)
+        for ti, ty in enumerate(grid):
+            for vi, v in enumerate(self.VALUES):
+                # quick: every value meets every third type of the grid (rotating), thorough: the full product
+                if tier != "quick" or (ti + vi) % 3 == 0:
+                    yield [ty, v]
+        reps = (["int", None, None, True], ["int", "0", None, True], ["float", None, None, True],
+                ["ints", None, None, None, None, None, False, False], ["ints", None, None, None, None, "3", False, False],
+                ["floats", None, None, None, None, None, False, False])
+        if tier == "quick":
+            # decimal text of a 4300-digit integer costs the extracted model about a second: one such case only
+            yield [reps[0], "10**4299"]
+            for ty in reps:
+                yield [ty, "10**4300"]
+        else:
+            for ty in reps:
+                for v in self.HUGE_VALUES:
+                    yield [ty, v]
 
     def val(self, s):
         g = dict(math.__dict__)
@@ -961,13 +1005,15 @@ class AsWords(Stream):
 
 SPEC = {
     "clusters": ["Conv"],
-    "streams": [IntOfStr, FloatOfInt, NumCmp, CtorInit, FromWords],
+    "streams": [IntOfStr, FloatOfInt, NumCmp, CtorInit, FromWords, AsWords],
     "rule": "from_words: constructor-argument grid (bool; int/float x value_min/value_max pairs x allow_none; ints/floats x "
             "size/size_min/size_max x bounds x allow_none_elements/allow_auto_elements) x value texts (fixed grammar list rotated over "
             "the grid, plus seeded random texts: numbers, arithmetic, separators, brackets, None/Auto/True/False/yes/no in random case, "
             "inf/nan/1e999, huge ints, junk, quoted words); distinct = distinct (type, text), non-trivial = non-blank text. "
             "int_of_str: all strings to length 4 (quick) / 5 (thorough) over a 16-symbol alphabet + random; float_of_int: 2^k +- d around "
-            "every rounding boundary 2^50..2^1100 + random; num_cmp: all pairs of a 35-value pool; ctor_init: size/bounds grid",
+            "every rounding boundary 2^50..2^1100 + random; num_cmp: all pairs of a 35-value pool; ctor_init: size/bounds grid; "
+            "as_words: type grid x 38 Python values (None, Auto, ints, bools, floats incl. -0.0/inf/nan, huge ints, lists with None/Auto/nested "
+            "elements; quick: every third pair)",
     "trusted": ["Oracle: eval(value_string, math.__dict__, {}) - recorded from the implementation's own calls (the name eval is "
                 "rebound in module freephil.converters to a recording wrapper for the duration of the run) and supplied to the model as a table",
                 "Modelled: converters.py bool_from_words, str_from_words, number_from_value_string, number(s)_from_words, "
